@@ -140,6 +140,19 @@ class FastHierarchyAnalyzer(HierarchyAnalyzerBase):
             if len([node for node in graph.choice_nodes if isinstance(node, SelectionChoiceNode)]) > 0 \
                     and graph.feasible:
                 raise RuntimeError(f'Selection-choice nodes left for dv: {opt_idx}')
+
+            # Choices left with one option (by a choice constraint or incompatibility) are resolved automatically when
+            # another choice is taken: they are active too, with the option that was wired to their originating node
+            for i_choice, choice_node in enumerate(sel_choice_nodes):
+                if taken_sel_opt[i_choice] != X_INACTIVE_VALUE or choice_node in graph.graph.nodes:
+                    continue
+                originating_node = self.adsg.get_originating_node(choice_node)
+                if originating_node not in graph.graph.nodes:
+                    continue
+                i_wired = [i for i, option_node in enumerate(sel_choice_opt_nodes[choice_node])
+                           if graph.graph.has_edge(originating_node, option_node)]
+                if len(i_wired) == 1:
+                    taken_sel_opt[i_choice] = i_wired[0]
             return tuple(taken_sel_opt), graph
 
         # Iterate over current and neighboring design vectors
